@@ -249,6 +249,30 @@ type frame struct {
 	env     *env
 	results []Value
 	named   []types.Object // named results
+	label     string // label of a pending labelled break/continue
+	nextLabel string // label attached to the statement about to run
+}
+
+// loopCtl decides what a loop does with the control signal of its body.
+// It returns (stop the loop, propagate this signal to the caller).
+func (f *frame) loopCtl(c ctl, my string) (stop bool, up ctl) {
+	switch c {
+	case ctlReturn:
+		return true, ctlReturn
+	case ctlBreak:
+		if f.label != "" && f.label != my {
+			return true, ctlBreak
+		}
+		f.label = ""
+		return true, ctlNone
+	case ctlContinue:
+		if f.label != "" && f.label != my {
+			return true, ctlContinue
+		}
+		f.label = ""
+		return false, ctlNone
+	}
+	return false, ctlNone
 }
 
 // Call interprets fn with the given receiver (nil if none) and arguments.
@@ -470,9 +494,15 @@ func (f *frame) stmt(s ast.Stmt) (ctl, error) {
 		return f.switchStmt(s)
 	case *ast.TypeSwitchStmt:
 		return f.typeSwitch(s)
+	case *ast.LabeledStmt:
+		f.nextLabel = s.Label.Name
+		return f.stmt(s.Stmt)
 	case *ast.BranchStmt:
 		if s.Label != nil {
-			return ctlNone, unsup(s.Pos(), "labelled branch")
+			if s.Tok != token.BREAK && s.Tok != token.CONTINUE {
+				return ctlNone, unsup(s.Pos(), "goto")
+			}
+			f.label = s.Label.Name
 		}
 		switch s.Tok {
 		case token.BREAK:
@@ -484,6 +514,8 @@ func (f *frame) stmt(s ast.Stmt) (ctl, error) {
 		}
 		return ctlNone, unsup(s.Pos(), "branch %v", s.Tok)
 	case *ast.ForStmt:
+		my := f.nextLabel
+		f.nextLabel = ""
 		saved := f.env
 		f.env = newEnv(saved)
 		defer func() { f.env = saved }()
@@ -506,10 +538,10 @@ func (f *frame) stmt(s ast.Stmt) (ctl, error) {
 			if err != nil {
 				return ctlNone, err
 			}
-			if c == ctlReturn {
-				return c, nil
-			}
-			if c == ctlBreak {
+			if stop, up := f.loopCtl(c, my); stop {
+				if up != ctlNone {
+					return up, nil
+				}
 				break
 			}
 			if s.Post != nil {
@@ -524,6 +556,8 @@ func (f *frame) stmt(s ast.Stmt) (ctl, error) {
 		}
 		return ctlNone, nil
 	case *ast.RangeStmt:
+		my := f.nextLabel
+		f.nextLabel = ""
 		xv, err := f.expr(s.X)
 		if err != nil {
 			return ctlNone, err
@@ -583,10 +617,10 @@ func (f *frame) stmt(s ast.Stmt) (ctl, error) {
 			if err != nil {
 				return ctlNone, err
 			}
-			if c == ctlReturn {
-				return c, nil
-			}
-			if c == ctlBreak {
+			if stop, up := f.loopCtl(c, my); stop {
+				if up != ctlNone {
+					return up, nil
+				}
 				break
 			}
 		}
@@ -666,6 +700,9 @@ func (f *frame) switchStmt(s *ast.SwitchStmt) (ctl, error) {
 		case ctlFallthrough:
 			continue
 		case ctlBreak:
+			if f.label != "" {
+				return ctlBreak, nil
+			}
 			return ctlNone, nil
 		default:
 			return c, nil
@@ -746,7 +783,7 @@ func (f *frame) typeSwitch(s *ast.TypeSwitchStmt) (ctl, error) {
 		if err != nil {
 			return ctlNone, err
 		}
-		if c == ctlBreak {
+		if c == ctlBreak && f.label == "" {
 			return ctlNone, nil
 		}
 		if c != ctlNone {
@@ -959,6 +996,19 @@ func (f *frame) store(l ast.Expr, v Value) error {
 		if err != nil {
 			return err
 		}
+		if sel := f.info.Selections[l]; sel != nil {
+			for _, emb := range embeddedPath(sel) {
+				switch x := base.(type) {
+				case *Obj:
+					if x == nil || x.Opaque {
+						return unsup(l.Pos(), "embedded field of nil/symbolic object")
+					}
+					base = x.Fields[emb]
+				case *Rec:
+					base = x.Fields[emb]
+				}
+			}
+		}
 		switch b := base.(type) {
 		case *Obj:
 			if b == nil {
@@ -1033,6 +1083,19 @@ func (f *frame) lvalueBase(e ast.Expr) (Value, error) {
 		b, err := f.lvalueBase(e.X)
 		if err != nil {
 			return nil, err
+		}
+		if sel := f.info.Selections[e]; sel != nil {
+			for _, emb := range embeddedPath(sel) {
+				switch x := b.(type) {
+				case *Obj:
+					if x == nil || x.Opaque {
+						return nil, unsup(e.Pos(), "embedded field of nil/symbolic object")
+					}
+					b = x.Fields[emb]
+				case *Rec:
+					b = x.Fields[emb]
+				}
+			}
 		}
 		switch b := b.(type) {
 		case *Obj:
@@ -1129,6 +1192,20 @@ func (f *frame) exprMulti(e ast.Expr) ([]Value, error) {
 			b, err := f.expr(e.X)
 			if err != nil {
 				return nil, err
+			}
+			// promoted field: walk through the embedded structs first
+			for _, emb := range embeddedPath(sel) {
+				switch x := b.(type) {
+				case *Obj:
+					if x == nil || x.Opaque {
+						return nil, unsup(e.Pos(), "embedded field of nil/symbolic object")
+					}
+					b = x.Fields[emb]
+				case *Rec:
+					b = x.Fields[emb]
+				default:
+					return nil, unsup(e.Pos(), "embedded field on %T", b)
+				}
 			}
 			switch b := b.(type) {
 			case *Obj:
@@ -1358,6 +1435,28 @@ func (f *frame) exprMulti(e ast.Expr) ([]Value, error) {
 		return []Value{v}, nil
 	}
 	return nil, unsup(e.Pos(), "expression %T", e)
+}
+
+// embeddedPath returns the names of the embedded fields a selection passes through.
+func embeddedPath(sel *types.Selection) []string {
+	idx := sel.Index()
+	if len(idx) <= 1 {
+		return nil
+	}
+	var out []string
+	t := sel.Recv()
+	for _, i := range idx[:len(idx)-1] {
+		if p, ok := t.Underlying().(*types.Pointer); ok {
+			t = p.Elem()
+		}
+		st, ok := t.Underlying().(*types.Struct)
+		if !ok {
+			return out
+		}
+		out = append(out, st.Field(i).Name())
+		t = st.Field(i).Type()
+	}
+	return out
 }
 
 // dynIs reports whether the dynamic type of v is t (ok) and whether that is decidable (known).
@@ -1686,6 +1785,22 @@ func (f *frame) call(e *ast.CallExpr) ([]Value, error) {
 				return nil, err
 			}
 			recv = rv
+		}
+	}
+	if fnObj != nil && recv != nil {
+		if sel, ok := ast.Unparen(e.Fun).(*ast.SelectorExpr); ok {
+			if s := f.info.Selections[sel]; s != nil && s.Kind() == types.MethodVal {
+				for _, emb := range embeddedPath(s) {
+					switch x := recv.(type) {
+					case *Obj:
+						if x != nil && !x.Opaque {
+							recv = x.Fields[emb]
+						}
+					case *Rec:
+						recv = x.Fields[emb]
+					}
+				}
+			}
 		}
 	}
 	if err := evalArgs(); err != nil {
